@@ -8,6 +8,12 @@
 
   `repaired = false` gives the step function of the tree before the repair (no teardown).
   Pair-verify is the very function of HapModel/PairVerify.lean.
+  A `resource` request (POST /resource, a camera snapshot) is answered LATER: `_process_response`
+  stores the response and writes nothing; `ready` is the completion of the task
+  (`_handle_response_ready`): the response is written unless the transport is closing — then nothing
+  is written at all.  `restart` is the end of the process and a start from the state file: every
+  connection and handler is gone, the pairing map is what was saved (its faithful reload is C14/C15's
+  subject).
   One `chunk` = one `data_received`: the requests it contains are processed one after the other even
   if the transport was closed meanwhile (`_process_events` does not look at the transport); bytes
   written after the close go nowhere (`dropped`). Data for a connection that is not in the registry
@@ -19,6 +25,8 @@ open Hap Hap.PV
 
 structure SConn where
   pv : PV.Conn := {}
+  /-- `HAPServerProtocol.response`: a delayed response (snapshot being taken) is outstanding -/
+  pending : Bool := false
 deriving DecidableEq, Repr
 
 inductive Req
@@ -28,6 +36,9 @@ inductive Req
       1 GET /characteristics, 2 PUT /characteristics (write), 3 PUT /characteristics (subscribe),
       4 PUT /prepare -/
   | guarded (kind : Nat)
+  /-- POST /resource on an accessory with a camera: guarded by `is_encrypted`; the answer is delayed
+      (response class `served 5` when it is finally written) -/
+  | resource
   /-- POST /pairings, request type 3 / 4 / 5 -/
   | addPairing (uname key : Bytes) (admin : Bool)
   | removePairing (uname : Bytes)
@@ -82,7 +93,8 @@ def teardown (s : Sys) : Sys :=
   { s with
     live := s.live.filter (fun d => !victim d),
     conns := fun d =>
-      if d ∈ s.live ∧ victim d = true then { pv := { (s.conns d).pv with verified := false } } else s.conns d,
+      if d ∈ s.live ∧ victim d = true then { (s.conns d) with pv := { (s.conns d).pv with verified := false } }
+      else s.conns d,
     trace := s.trace ++ (s.live.filter victim).map Event.close }
 
 /-- write a response on connection `c`: it reaches the peer only while the transport is open -/
@@ -94,9 +106,14 @@ def procReq (C : Crypto) (repaired : Bool) (s : Sys) (c : Nat) : Req → Sys
   | .pairVerify body =>
     let r := handlePairVerify C s.pairings s.clock (s.conns c).pv body
     let s1 := emit s c (.pv r.2.resp)      -- the answer is written before the cipher is installed
-    { s1 with conns := setConn s1.conns c { pv := installCipher r.1 r.2 }, clock := s.clock + 1 }
+    { s1 with conns := setConn s1.conns c { (s.conns c) with pv := installCipher r.1 r.2 }, clock := s.clock + 1 }
   | .guarded kind =>
     emit { s with clock := s.clock + 1 } c (if (s.conns c).pv.verified then .served kind else .unauthorized)
+  | .resource =>
+    if (s.conns c).pv.verified then
+      -- `response.task` is set: `_process_response` keeps the response for later, nothing is written
+      { s with conns := setConn s.conns c { (s.conns c) with pending := true }, clock := s.clock + 1 }
+    else emit { s with clock := s.clock + 1 } c .unauthorized
   | .listPairings =>
     let h := (s.conns c).pv
     let s0 := { s with clock := s.clock + 1 }
@@ -144,6 +161,10 @@ inductive Op
   | chunk (c : Nat) (reqs : List Req)
   /-- a pairing registered outside `/pairings` (pair-setup M5/M6 or the application) -/
   | pair (u : Uuid) (k : Key) (admin : Bool)
+  /-- the snapshot task of connection `c` completes (`ok`) or fails: `_handle_response_ready` -/
+  | ready (c : Nat) (ok : Bool)
+  /-- the process ends and the accessory is started again from its state file -/
+  | restart
 deriving Repr
 
 def step (C : Crypto) (repaired : Bool) (s : Sys) : Op → Sys
@@ -153,6 +174,13 @@ def step (C : Crypto) (repaired : Bool) (s : Sys) : Op → Sys
   | .peerClose c => { s with live := s.live.filter (· != c), clock := s.clock + 1 }
   | .chunk c reqs => if c ∈ s.live then procChunk C repaired c s reqs else s
   | .pair u k a => { s with pairings := addPairing s.pairings u k a, clock := s.clock + 1 }
+  | .ready c ok =>
+    if (s.conns c).pending then
+      let s0 := { s with conns := setConn s.conns c { (s.conns c) with pending := false }, clock := s.clock + 1 }
+      -- `if self.transport.is_closing(): return` — nothing at all is written to a closed transport
+      if c ∈ s.live then emit s0 c (if ok then .served 5 else .err500) else s0
+    else { s with clock := s.clock + 1 }
+  | .restart => { s with conns := fun _ => {}, live := [], clock := s.clock + 1 }
 
 def run (C : Crypto) (repaired : Bool) : Sys → List Op → Sys
   | s, [] => s
